@@ -65,6 +65,13 @@ def traitTr : TraitItem :=
                                           .typed [] (.other [i "_"] []) (tyPath "T")]
                                output := some [i "T"] } }] }
 
+/-- `pub trait Cf { #[cfg(any())] fn gone(&self); fn here(&self); }` -/
+def traitCfg : TraitItem :=
+  { vis := [i "pub"], ident := "Cf"
+    members := [.fn { attrs := [⟨[i "cfg", parens [i "any", parens []]]⟩],
+                      sig := { ident := "gone", inputs := [.recv [] (some none) false none] } },
+                .fn { sig := { ident := "here", inputs := [.recv [] (some none) false none] } }] }
+
 /-- `impl TrImpl for X { fn m(d: &impl Y, a: u8) {} }` -/
 def implX : ImplItemIn :=
   { traitPath := [i "TrImpl"], selfTy := [i "X"]
@@ -83,6 +90,7 @@ theorem fnBar_expands : isOk (expand .unimock [i "Bar"] (.fn fnBar)) = true := b
 theorem modM_expands : isOk (expand .export_ [i "pub", parens [i "crate"], i "Foo"] (.mod_ modM)) = true := by decide
 theorem modCfg_expands : isOk (expand .plain [i "Foo"] (.mod_ modCfg)) = true := by decide +kernel
 theorem traitTr_expands : isOk (expand .plain [i "TrImpl", p ',', i "delegate_by", p '=', i "ref"] (.trait traitTr)) = true := by decide
+theorem traitCfg_expands : isOk (expand .plain [i "CfImpl", p ',', i "delegate_by", p '=', i "ref"] (.trait traitCfg)) = true := by decide +kernel
 theorem traitTr_leaf_expands : isOk (expand .unimock [] (.trait traitTr)) = true := by decide
 theorem implX_expands : isOk (expand .plain [i "ref"] (.impl implX)) = true := by decide +kernel
 
